@@ -4,17 +4,21 @@
 //        [0] (rejected) | [-2] (panic) | [1 [[product tag cluster err] per probe]] ; the observation is the sorted list
 //        of DISTINCT summaries.  probes = [[host vip? path] ...]
 //   [2 K [[sub weight] ...]] : bal_gslb.Init on a Go map, K times; summary [0] | [1 [[name weight]...] total single avail]
-//   [3 K A B [[key murmur64] ...]] : reload-history independence of the balancer: A, B = gslb sub-cluster maps; every
-//        sub-cluster N has one backend "bk_N".  fresh = Init(B)+BackendInit ; hist = Init(A)+BackendInit+Reload(B)+BackendReload.
-//        summary [-1 c] (A or B has no positive weight) | [stateF stateH picksF picksH] with state = [[name weight]...] total
-//        single (avail if single else -1) and picks = [[sub-cluster backend] per key] chosen by BalanceGslb.Balance for a
-//        request whose client IP bytes are the key (murmur3.Sum64(key) is the input column for the model)
+//   [3 K [sticky strategy] A B [[key murmur64] ...]] : reload-history independence of the balancer.
+//        A, B = [[sub weight [[bname addr port bweight] ...]] ...] (gslb weights + cluster_table backends).
+//        fresh = Init(B)+BackendInit ; hist = Init(A)+BackendInit+Reload(B)+BackendReload, both with SetGslbBasic(sticky,
+//        strategy 1 = client ip, 3 = request uri).  summary [-1 c] (A or B not loadable) | [halfF halfH], half =
+//        [state inventory picks]: state = [[name weight]...] total single (avail if single else -1); inventory = per
+//        sub-cluster the (AddrInfo, weight) list sorted by AddrInfo; picks = per key [sub-cluster backendName AddrInfo]
+//        chosen by BalanceGslb.Balance (backend blank unless session-sticky: round-robin position is run-time state).
+//        murmur3.Sum64(key) is the input column for the model.
 package main
 
 import (
 	"net"
 	"net/url"
 	"sort"
+	"strconv"
 	"strings"
 
 	"verif/harness/confload"
@@ -22,6 +26,7 @@ import (
 
 	"github.com/bfenetworks/bfe/bfe_balance/bal_gslb"
 	"github.com/bfenetworks/bfe/bfe_basic"
+	"github.com/bfenetworks/bfe/bfe_config/bfe_cluster_conf/cluster_conf"
 	"github.com/bfenetworks/bfe/bfe_config/bfe_cluster_conf/cluster_table_conf"
 	"github.com/bfenetworks/bfe/bfe_config/bfe_cluster_conf/gslb_conf"
 	"github.com/spaolacci/murmur3"
@@ -133,6 +138,11 @@ func impl(in hv.Val) hv.Val {
 			return hv.L{hv.I(1), subs, hv.I(total), hv.Bool(single), hv.I(avail)}
 		})
 	case 3:
+		mode := hv.AsList(l[2])
+		sticky, strategy := hv.AsInt(mode[0]) != 0, int(hv.AsInt(mode[1]))
+		if strategy != 3 {
+			strategy = 1
+		}
 		mk := func(v hv.Val) (gslb_conf.GslbClusterConf, cluster_table_conf.ClusterBackend) {
 			conf := gslb_conf.GslbClusterConf{}
 			tbl := cluster_table_conf.ClusterBackend{}
@@ -140,18 +150,30 @@ func impl(in hv.Val) hv.Val {
 				kv := hv.AsList(e)
 				name := hv.AsStr(kv[0])
 				conf[name] = int(hv.AsInt(kv[1]))
-				bn, addr, port, w := "bk_"+name, "10.0.0.1", 80+len(tbl), 1
-				tbl[name] = cluster_table_conf.SubClusterBackend{&cluster_table_conf.BackendConf{Name: &bn, Addr: &addr, Port: &port, Weight: &w}}
+				var bl cluster_table_conf.SubClusterBackend
+				for _, b := range hv.AsList(kv[2]) {
+					f := hv.AsList(b)
+					bn, addr, port, w := hv.AsStr(f[0]), hv.AsStr(f[1]), int(hv.AsInt(f[2])), int(hv.AsInt(f[3]))
+					bl = append(bl, &cluster_table_conf.BackendConf{Name: &bn, Addr: &addr, Port: &port, Weight: &w})
+				}
+				tbl[name] = bl
 			}
 			return conf, tbl
 		}
-		confA, tblA := mk(l[2])
-		confB, tblB := mk(l[3])
+		confA, tblA := mk(l[3])
+		confB, tblB := mk(l[4])
 		var keys [][]byte
-		for _, p := range hv.AsList(l[4]) {
+		for _, p := range hv.AsList(l[5]) {
 			keys = append(keys, hv.AsBytes(hv.AsList(p)[0]))
 		}
-		view := func(bal *bal_gslb.BalanceGslb) (hv.Val, hv.Val) {
+		newBal := func() *bal_gslb.BalanceGslb {
+			bal := bal_gslb.NewBalanceGslb("c14")
+			cross, retry, mode := 0, 2, "WRR"
+			bal.SetGslbBasic(cluster_conf.GslbBasicConf{CrossRetry: &cross, RetryMax: &retry, BalanceMode: &mode,
+				HashConf: &cluster_conf.HashConf{HashStrategy: &strategy, SessionSticky: &sticky}})
+			return bal
+		}
+		view := func(bal *bal_gslb.BalanceGslb) hv.Val {
 			names, weights, total, single, avail := bal_gslb.VerifC14State(bal)
 			subs := hv.L{}
 			for i := range names {
@@ -160,25 +182,39 @@ func impl(in hv.Val) hv.Val {
 			if !single {
 				avail = -1 // only meaningful (and only maintained by Reload) when single
 			}
+			inv := hv.L{}
+			addrs, ws := bal_gslb.VerifC14Inventory(bal)
+			for i := range addrs {
+				idx := make([]int, len(addrs[i]))
+				for j := range idx {
+					idx[j] = j
+				}
+				sort.Slice(idx, func(x, y int) bool { return addrs[i][idx[x]] < addrs[i][idx[y]] })
+				one := hv.L{}
+				for _, j := range idx {
+					one = append(one, hv.L{hv.S(addrs[i][j]), hv.I(ws[i][j])})
+				}
+				inv = append(inv, one)
+			}
 			picks := hv.L{}
 			for _, k := range keys {
-				req := &bfe_basic.Request{ClientAddr: &net.TCPAddr{IP: net.IP(k), Port: 1}, HttpRequest: &bfe_http.Request{}}
+				req := &bfe_basic.Request{ClientAddr: &net.TCPAddr{IP: net.IP(k), Port: 1}, HttpRequest: &bfe_http.Request{RequestURI: string(k)}}
 				bk, err := bal.Balance(req)
-				name := ""
-				if err == nil && bk != nil {
-					name = bk.Name
+				name, addr := "", ""
+				if sticky && err == nil && bk != nil {
+					name, addr = bk.Name, bk.AddrInfo
 				}
-				picks = append(picks, hv.L{hv.S(req.Backend.SubclusterName), hv.S(name)})
+				picks = append(picks, hv.L{hv.S(req.Backend.SubclusterName), hv.S(name), hv.S(addr)})
 			}
-			return hv.L{subs, hv.I(total), hv.Bool(single), hv.I(avail)}, picks
+			return hv.L{hv.L{subs, hv.I(total), hv.Bool(single), hv.I(avail)}, inv, picks}
 		}
 		return distinct(hv.AsInt(l[1]), func() hv.Val {
-			fresh := bal_gslb.NewBalanceGslb("c14")
+			fresh := newBal()
 			if err := fresh.Init(confB); err != nil {
 				return hv.Err(2)
 			}
 			fresh.BackendInit(tblB)
-			hist := bal_gslb.NewBalanceGslb("c14")
+			hist := newBal()
 			if err := hist.Init(confA); err != nil {
 				return hv.Err(1)
 			}
@@ -187,9 +223,7 @@ func impl(in hv.Val) hv.Val {
 				return hv.Err(2)
 			}
 			hist.BackendReload(tblB)
-			sf, pf := view(fresh)
-			sh, ph := view(hist)
-			return hv.L{sf, sh, pf, ph}
+			return hv.L{view(fresh), view(hist)}
 		})
 	}
 	return hv.Err(0)
@@ -269,19 +303,102 @@ func genReload(r *hv.Rng) (string, hv.Val) {
 		k := r.Intn(j + 1)
 		b[j], b[k] = b[k], b[j]
 	}
-	val := func(l []sw) hv.Val {
+	// backends: AddrInfo (addr:port) -> Name is a function within the case (Update keeps the object of a kept AddrInfo);
+	// several AddrInfos share a Name (one host, several ports / addresses), several Names share an address
+	bkNames := []string{"web", "web", "app", "web-01", "App"}
+	bkAddrs := []string{"10.0.0.1", "10.0.0.2", "10.0.0.10", "192.168.1.1"}
+	bkPorts := []int{80, 8080, 8081, 9, 10080}
+	nameOf := func(addr string, port int) string {
+		return bkNames[(len(addr)*7+port)%len(bkNames)]
+	}
+	genBks := func() hv.L {
+		n := r.Range(2, 5)
+		used := map[string]bool{}
 		out := hv.L{}
-		for _, e := range l {
-			out = append(out, hv.L{hv.S(e.n), hv.I(e.w)})
+		for len(out) < n {
+			addr, port := bkAddrs[r.Intn(len(bkAddrs))], bkPorts[r.Intn(len(bkPorts))]
+			if r.Chance(2, 3) && len(out) > 0 { // same address as the previous one, another port
+				addr = hv.AsStr(hv.AsList(out[len(out)-1])[1])
+			}
+			key := addr + ":" + strconv.Itoa(port)
+			if used[key] {
+				continue
+			}
+			used[key] = true
+			w := r.Range(1, 5)
+			if len(out) > 0 && r.Chance(1, 6) {
+				w = r.Range(-1, 0)
+			}
+			out = append(out, hv.L{hv.S(nameOf(addr, port)), hv.S(addr), hv.I(port), hv.I(w)})
 		}
 		return out
 	}
+	bksA := map[string]hv.L{}
+	val := func(l []sw, isB bool) hv.Val {
+		out := hv.L{}
+		for _, e := range l {
+			var bks hv.L
+			old, had := bksA[e.n]
+			switch {
+			case !isB || !had:
+				bks = genBks()
+			default: // B: the sub-cluster existed in A: keep / reweight / drop / add / reorder backends
+				for _, b := range old {
+					f := hv.AsList(b)
+					switch r.Intn(5) {
+					case 0: // dropped
+					case 1:
+						bks = append(bks, hv.L{f[0], f[1], f[2], hv.I(r.Range(1, 5))})
+					default:
+						bks = append(bks, b)
+					}
+				}
+				have := map[string]bool{}
+				for _, b := range bks {
+					f := hv.AsList(b)
+					have[hv.AsStr(f[1])+":"+hv.String(f[2])] = true
+				}
+				for _, b := range genBks() {
+					f := hv.AsList(b)
+					if k := hv.AsStr(f[1]) + ":" + hv.String(f[2]); !have[k] && (len(bks) < 2 || r.Chance(1, 3)) && len(bks) < 5 {
+						have[k] = true
+						bks = append(bks, b)
+					}
+				}
+				for j := len(bks) - 1; j > 0; j-- {
+					k := r.Intn(j + 1)
+					bks[j], bks[k] = bks[k], bks[j]
+				}
+			}
+			// a sub-cluster that can be selected needs a usable backend (otherwise Balance falls back to a random cross retry)
+			f := hv.AsList(bks[0])
+			if hv.AsInt(f[3]) <= 0 {
+				bks[0] = hv.L{f[0], f[1], f[2], hv.I(r.Range(1, 5))}
+			}
+			if !isB {
+				bksA[e.n] = bks
+			}
+			out = append(out, hv.L{hv.S(e.n), hv.I(e.w), bks})
+		}
+		return out
+	}
+	va := val(a, false)
+	vb := val(b, true)
 	probes := hv.L{}
 	for k := 0; k < 12; k++ {
 		key := []byte{10, byte(r.Intn(256)), byte(r.Intn(256)), byte(r.Intn(256))}
 		probes = append(probes, hv.L{hv.B(key), hv.U(murmur3.Sum64(key))})
 	}
-	return class, hv.L{hv.I(3), hv.I(12), val(a), val(b), probes}
+	sticky, strategy := 0, 1
+	if r.Chance(2, 3) {
+		sticky = 1
+		class += "-sticky"
+	}
+	if r.Chance(1, 3) {
+		strategy = 3
+		class += "-uri"
+	}
+	return class, hv.L{hv.I(3), hv.I(12), hv.L{hv.I(sticky), hv.I(strategy)}, va, vb, probes}
 }
 
 var probePaths = []string{"/a", "/a/b", "/a/", "/ab", "/b", "/b/x", "/", "", "/c/d/e", "/e", "/z"}
